@@ -53,7 +53,7 @@ ANCHORS = ["txtorcon.torstate:TorState._maybe_attach", "txtorcon.torstate:TorSta
            "txtorcon.circuit:_CircuitAttacher.attach_stream", "txtorcon.circuit:_CircuitAttacher._add_real_target",
            "txtorcon.circuit:TorCircuitEndpoint.connect", "txtorcon.attacher:PriorityAttacher.attach_stream"]
 FLOORS = {"quick": {"evaluations": 800, "streams_judged": 2500, "via_connections_judged": 600,
-                    "via_connections_on_a_reused_local_port": 30, "streams_first_seen_already_closed": 80,
+                    "via_connections_on_a_reused_local_port": 30, "events_for_unattached_stream_while_attacher_undecided": 100, "streams_first_seen_already_closed": 80,
                     "streams_first_seen_already_failed": 80, "decided_streams_ended_by_failed": 300,
                     "reach:txtorcon.torstate:TorState._maybe_attach": 2000,
                     "reach:txtorcon.circuit:_CircuitAttacher.attach_stream": 500},
@@ -418,6 +418,8 @@ def run_answers(case, rec):
                            (" REASON=END" if status == "CLOSED" else ""))
             if status in ("FAILED", "CLOSED"):
                 rec.count("decided_streams_ended_by_" + status.lower())
+            elif step[3] == 0 and sid not in decided_at:
+                rec.count("events_for_unattached_stream_while_attacher_undecided")
         elif op == "ghost":
             # a stream first heard of when it is already over (its NEW fell into the window before
             # SETEVENTS took effect): not attachable, so no decision may be sent for it
@@ -525,6 +527,10 @@ def gen_answers_case(rnd, combo=None):
         steps.append(("new", s["sid"]))
         if s["mode"] in ("deferred", "coroutine-await"):
             pend.append(s["sid"])
+            if rnd.random() < 0.3:
+                # Tor reports progress of the still unattached stream while the attacher thinks
+                # (cached DNS answer / MapAddress: REMAP with circuit 0; CONTROLLER_WAIT)
+                steps.append(("later", s["sid"], rnd.choice(["REMAP", "CONTROLLER_WAIT"]), 0))
             if s["answer"] == "fresh" and not fresh_done:
                 steps += [("circ", 8, "LAUNCHED", 0), ("circ", 8, "EXTENDED", 2), ("circ", 8, "BUILT", 3)]
                 fresh_done = True
@@ -639,12 +645,22 @@ def run_via(case, rec):
         op = step[0]
         if op == "connect":
             cn = conns[step[1]]
+            if cn["spec"].get("late"):
+                old = conns[cn["spec"]["after"]]
+                if not (old.get("socks_dead") or (old.get("ended") and not old.get("reused_by"))):
+                    continue        # its local port is still in use: the OS would not hand it out
             d = cn["tep"].connect(cn["factory"])
             cn["outcome"] = w.aud.watch(d, "connect%d" % step[1])
             if not case.get("burst"):
                 w.pump()
         elif op == "pump":
             w.pump()
+        elif op == "end-stream":
+            cn = conns[step[1]]
+            c = cn["spec"]
+            if cn.get("succeeded") and not cn.get("ended") and not cn.get("reused_by"):
+                w.stream_event(c["sid"], "CLOSED", cn.get("tor_chose") or c["circ"], "%s:%d" % (c["host"], c["port"]), " REASON=DONE")
+                cn["ended"] = True
         elif op == "establish":
             cn = conns[step[1]]
             if cn["ep"].d is not None and cn["ep"].proto is None and not cn.get("socks_dead"):
@@ -722,6 +738,7 @@ def run_via(case, rec):
             w.stream_event(c["sid"], "CLOSED", cn.get("tor_chose") or c["circ"], "%s:%d" % (c["host"], c["port"]), " REASON=DONE")
             w.stream_event(step[2], "NEW", 0, "reuse.example:80", " SOURCE_ADDR=127.0.0.1:%d PURPOSE=USER" % c["srcport"])
             cn["reused_by"] = step[2]
+            cn["ended"] = True
     w.pump()
     # ---- oracle
     unrelated = {s[1]: s for s in case["steps"] if s[0] == "unrelated"}
@@ -848,14 +865,23 @@ def gen_via_case(rnd, nconn=None, perm=None):
     for c in conns:
         if rnd.random() < 0.3:
             steps.append(("reuse", c["i"], 300 + c["i"]))
+    late_after = None
     if lost_victim is not None and rnd.random() < 0.7:
-        # later the OS hands the dead connection's local port to a new via-circuit connection
-        # that goes through another circuit
-        v = conns[lost_victim]
+        late_after = lost_victim
+    elif rnd.random() < 0.3:
+        late_after = rnd.randrange(n)
+    if late_after is not None:
+        # later the OS hands the local port of a connection that is over (its SOCKS link died
+        # unannounced, or it completed and its stream ended) to a new via-circuit connection that
+        # goes through another circuit; the old connection's circuit may close meanwhile
+        v = conns[late_after]
         late = {"i": n, "circ": {1: 2, 2: 1}.get(v["circ"], 1), "host": "late.example", "port": 443,
-                "srcport": v["srcport"], "sid": 100 + n, "late": True}
+                "srcport": v["srcport"], "sid": 100 + n, "late": True, "after": late_after}
         conns.append(late)
-        steps += [("connect", n), ("pump",), ("establish", n), ("announce", n), ("succeed", n)]
+        steps += [("end-stream", late_after), ("connect", n), ("pump",), ("establish", n)]
+        if v["circ"] in (1, 2) and rnd.random() < 0.5:
+            steps.append(("circ", v["circ"], rnd.choice(["CLOSED", "FAILED"])))
+        steps += [("announce", n), ("succeed", n)]
     return {"kind": "via", "conns": conns, "steps": steps, "chunking": gen.chunking(rnd),
             "burst": rnd.random() < 0.5}
 
